@@ -260,6 +260,12 @@ def finish_scenario(sc, src, family):
     return sc
 
 
+# attestations that must NOT be forwarded: (token named, metadata claimed).  t1 reports m1, t3 reports m2, t4 reports m1d.
+# Field-wise: exactly one of decimals / symbol / name / token chain differs from what the named contract reports, the
+# named token is another one (token id), the decimals differ the other way round, and all fields at once.
+ATTEST_PAIRS = [("t1", "m1d"), ("t1", "m1s"), ("t1", "m1n"), ("t1", "badchain"), ("t3", "m1"), ("t4", "m1"), ("t1", "m2")]
+
+
 class WGen:
     """Seeded generator of fake-node scripts with the property quantifiers' shapes."""
 
@@ -328,6 +334,7 @@ class WGen:
         self.op(op="tok", id="t1", shape="m1")
         self.op(op="tok", id="t2", shape=self.r.choice(TOK_SHAPES))
         self.op(op="tok", id="t3", shape="m2")
+        self.op(op="tok", id="t4", shape="m1d")     # same symbol and name as m1, other decimals
 
     # ---------------------------------------------------------------- families
     def poll(self):
@@ -352,9 +359,10 @@ class WGen:
                 elif k < 0.62:
                     self.good(b, tb=False)
                 elif k < 0.72:
-                    self.good(b, kind="attest", tok="t1", claim=r.choice(["m1", "m1", "m2", "m3"]), cl=r.choice([0, 1, 2]))
+                    tok, claim = r.choice(ATTEST_PAIRS + [("t1", "m1")] * 4 + [("t4", "m1d")])
+                    self.good(b, kind="attest", tok=tok, claim=claim, cl=r.choice([0, 1, 2]))
                 elif k < 0.8:
-                    self.good(b, kind="attest", tok="alph", claim=r.choice(["malph", "malph", "m1"]), cl=r.choice([0, 1]))
+                    self.good(b, kind="attest", tok="alph", claim=r.choice(["malph", "malph", "malphd", "malphn", "m1"]), cl=r.choice([0, 1]))
                 elif k < 0.88:
                     self.good(b, kind="other")
                 elif k < 0.94:
@@ -429,7 +437,8 @@ class WGen:
         if kind == "foreign-sender":
             target = self.good(b, tb=False, cl=0)
         if kind == "attest-bad":
-            target = self.good(b, kind="attest", tok=r.choice(["t1", "t2", "t3"]), claim=r.choice(["m2", "m3"]), cl=0)
+            tok, claim = r.choice(ATTEST_PAIRS + [("t2", "m2"), ("alph", "malphd"), ("alph", "malphn")])
+            target = self.good(b, kind="attest", tok=tok, claim=claim, cl=0)
         if kind == "attest-good":
             target = self.good(b, kind="attest", tok="t1", claim="m1", cl=0)
         if kind == "malformed":
@@ -1012,6 +1021,19 @@ def pinned(prop):
             g.step(None); g.raise_height(2)
             g.step(None); g.raise_height(1)
             done(g, "append-after-count-p%d" % page)
+        # attestations that differ from what the token contract reports in exactly one field (each alone), on both paths
+        for tok, claim in ATTEST_PAIRS + [("alph", "malphd"), ("alph", "malphn")]:
+            g = start()
+            g.op(op="tok", id="t3", shape="m2")
+            g.op(op="tok", id="t4", shape="m1d")
+            b = g.block(ts=-5000)
+            g.good(b, cl=0)
+            e = g.good(b, kind="attest", tok=tok, claim=claim, cl=0)
+            ok = g.good(b, kind="attest", tok="t4", claim="m1d", cl=0)      # matching metadata with the other decimals: must come out
+            g.step(None); g.raise_height(2)
+            g.step(None); g.op(op="req", tx=e["tx"])
+            g.step(None); g.op(op="req", tx=ok["tx"])
+            done(g, "attest-mismatch-%s-%s" % (tok, claim))
         # polling path: orphaned before confirmation, foreign sender, mismatching attestation, cl not reached
         g = start()
         b = g.block(ts=-5000)
